@@ -1,54 +1,28 @@
 package main
 
 import (
-	"bytes"
-	"compress/zlib"
 	"fmt"
+	"math/rand"
 	"os"
-	"runtime"
-	"time"
 
 	"github.com/tsawler/tabula"
+
+	"verifharness/gen/pdfw"
 )
 
 func main() {
-	n := 1 << 30
-	var zb bytes.Buffer
-	zw, _ := zlib.NewWriterLevel(&zb, 9)
-	chunk := bytes.Repeat([]byte(" "), 1<<20)
-	for i := 0; i < n>>20; i++ {
-		zw.Write(chunk)
+	r := rand.New(rand.NewSource(11))
+	g := pdfw.GenDoc(r, pdfw.DocOpts{MinPages: 1, MaxPages: 1, MaxLines: 14, MaxFonts: 2, TreeDepth: 1, Inherit: "leaf", NoEmptyPages: true, FontKinds: []string{"t1-winansi"}})
+	for _, tm := range []bool{false, true} {
+		lay := pdfw.BaselineLayout()
+		lay.TmScale = tm
+		b := pdfw.Build(7, lay, []*pdfw.Doc{g.Doc})
+		os.WriteFile("/dev/shm/tm.pdf", b.Bytes, 0o644)
+		fr, _, _ := tabula.Open("/dev/shm/tm.pdf").Fragments()
+		for _, f := range fr {
+			fmt.Printf("  (%.1f,%.1f) w=%.1f size=%.1f %q\n", f.X, f.Y, f.Width, f.FontSize, f.Text)
+		}
+		t, _, _ := tabula.Open("/dev/shm/tm.pdf").Text()
+		fmt.Printf("%q\n\n", t)
 	}
-	zw.Write([]byte("BT /F1 12 Tf 72 700 Td (hello) Tj ET"))
-	zw.Close()
-	objs := []string{
-		"<< /Type /Catalog /Pages 2 0 R >>",
-		"<< /Type /Pages /Kids [3 0 R] /Count 1 >>",
-		"<< /Type /Page /Parent 2 0 R /MediaBox [0 0 612 792] /Resources << /Font << /F1 4 0 R >> >> /Contents 5 0 R >>",
-		"<< /Type /Font /Subtype /Type1 /BaseFont /Helvetica >>",
-	}
-	var b bytes.Buffer
-	b.WriteString("%PDF-1.4\n")
-	var offs []int
-	for i, o := range objs {
-		offs = append(offs, b.Len())
-		fmt.Fprintf(&b, "%d 0 obj\n%s\nendobj\n", i+1, o)
-	}
-	offs = append(offs, b.Len())
-	fmt.Fprintf(&b, "5 0 obj\n<< /Filter /FlateDecode /Length %d >>\nstream\n", zb.Len())
-	b.Write(zb.Bytes())
-	b.WriteString("\nendstream\nendobj\n")
-	x := b.Len()
-	fmt.Fprintf(&b, "xref\n0 %d\n0000000000 65535 f \n", len(offs)+1)
-	for _, o := range offs {
-		fmt.Fprintf(&b, "%010d 00000 n \n", o)
-	}
-	fmt.Fprintf(&b, "trailer\n<< /Size %d /Root 1 0 R >>\nstartxref\n%d\n%%%%EOF\n", len(offs)+1, x)
-	os.WriteFile("/dev/shm/bomb.pdf", b.Bytes(), 0o644)
-	fmt.Println("file bytes", b.Len())
-	t0 := time.Now()
-	s, _, err := tabula.Open("/dev/shm/bomb.pdf").Text()
-	var ms runtime.MemStats
-	runtime.ReadMemStats(&ms)
-	fmt.Println(len(s), err, time.Since(t0), "sys MB", ms.Sys>>20, "totalalloc MB", ms.TotalAlloc>>20)
 }
